@@ -4,6 +4,10 @@ VERIF = os.path.dirname(os.path.dirname(os.path.abspath(__file__)))
 ALL = [f"C{n:02d}" for n in range(1, 21)]
 
 CLAIMED = {
+ "C05": dict(
+   text="Theorems (Coq): for the Linear.v model of LP extraction, every linear expression equals its extracted coefficient row applied to the point plus its extracted constant in any duplicate-free variable order; extract_lp's cost vector + constant reproduce the objective, each row/right-hand side reproduces the constraint with its sense (>= negated, == kept, constraint order kept), columns are aligned with the names, the O(1) shortcuts equal the general walker under the monotone-view guarantee, and the reported objective value (both orientations, constant included) equals the objective at the solver's point. Tie: all LPData fields and the public extraction functions must equal the model exactly on generated linear problems, every run.",
+   note="Trusted: Coq kernel; Reals axioms as printed; model Linear.v; exactness of float arithmetic on the generated small dyadic coefficients; nodiv0 guard (division by literal zero raises in Python); monotone views (API guarantee, hypothesis `aligned` evaluated per case).",
+   technique="Coq proof (structural induction under degree<=1, linear-algebra lemmas over Q/R) + exact differential correspondence of LP data", ref="6/C05"),
  "C01": dict(
    text="Theorems (Coq): for the Compile.v model of the closure compiler, run (build V e) x penv = evalR (env_of V x) penv e for every well-formed tree, every duplicate-free variable list containing its variables (any permutation/superset), every point and every parameter valuation read at call time; the builder is total (fails iff a variable is missing); the explicit-stack builder returns the same closure as the recursive one for every switch threshold. Tie: six implementation paths (compiled, cached, forced explicit-stack, dict function, CompiledExpression.value, evaluate) must each return a float inside the machine-checked interval enclosure of the real denotation, every run.",
    note="Trusted: Coq kernel + vm_compute; Reals axioms as printed; Interval library (SemI.evalI_correct) for the numeric channel; NumPy primitives read as the real functions they implement and assumed within one outward rounding at 40 bits; hand-written model Compile.v (closures are opaque, so its tie is behavioural); array-valued constants/parameters not modelled.",
